@@ -554,7 +554,6 @@ func NewApp(
 		slashingtypes.ModuleName,
 		govtypes.ModuleName,
 		enttypes.ModuleName,
-		crisistypes.ModuleName,
 		ibcexported.ModuleName,
 		genutiltypes.ModuleName,
 		evidencetypes.ModuleName,
@@ -570,6 +569,8 @@ func NewApp(
 		beacontypes.ModuleName,
 		wrkchaintypes.ModuleName,
 		streamtypes.ModuleName,
+		// crisis asserts every registered invariant at genesis: it must come after all modules it checks
+		crisistypes.ModuleName,
 	}
 
 	app.ModuleManager.SetOrderInitGenesis(genesisModuleOrder...)
